@@ -35,6 +35,12 @@ CLAIMED["C02"] = {
     "note": "trusts: stdlib zoneinfo + tzdata package as reference (TZPATH restricted to the package); fake file system stands in for /etc and the environment; which configuration source wins is deliberately not asserted (not part of the property)",
 }
 
+CLAIMED["C06"] = {
+    "text": "Seeded search over interleavings of 2-4 threads reading the components of the same fresh Interval (b - a, diff(), interval(); UTC, fixed-offset, naive, Date, same-zone and mixed-zone pairs biased to month ends, leap days and time-of-day borrows) while others rebuild the end (a + iv, a.add(components)), negate, copy, pickle or render it, with set_locale flips, zone-cache clears and restarts. Every observation must equal the cold single-threaded re-execution; for pairs that meet the statement's precondition the components must be canonical, a + (b - a) must be b, the reversed interval must report the negated components and in_months must be 12*years + months; every run index is executed by the compiled and the pure-Python helper backend (rebuilt from /repo/rust when its sources changed) and their un-pre-empted observations must be identical.",
+    "ref": "DESIGN.md §5 C06",
+    "note": "trusts: endpoint pairs kept within 250 years so the float-derived sub-second components stay exact (C05's bound); rebuild is asserted for a <= b only, as the statement says; one open known finding (compiled backend, mixed-zone pairs whose UTC shift changes the date) is suppressed by signature only",
+}
+
 NOT_APPLICABLE = {
     "C03": "pure function of its arguments and immutable zone data: no clock, shared mutable slot, configuration or I/O in add/subtract with fixed units; nothing for a scheduler or fault injector to vary",
     "C04": "pure function of its arguments (calendar arithmetic + construction rules); Duration fields it reads are written once in __new__; no schedule, clock or fault dependence",
@@ -54,10 +60,10 @@ ALL = ["C%02d" % i for i in range(1, 21)]
 
 # designed as simulation targets (DESIGN.md §5) but whose check is not registered yet
 PENDING = {p: "simulation target per DESIGN.md §5, check still under construction in this commit (not claimed yet)"
-           for p in ("C01", "C06", "C08", "C18")}
+           for p in ("C01", "C08", "C18")}
 
 FIX_COMMITS = ["0cac821 (C09 lazy-slot race)", "c2f908d (previous() never terminates across a skipped calendar day; C12/C16)",
-               "2c83944 (next() drifts to 01:00 after a skipped midnight; C16)", "6249586 (C12 week configuration read twice)", "1273e62 (C16 first_of/last_of depend on calendar.setfirstweekday())", "9fab684 (C02 mock local zone read twice)"]
+               "2c83944 (next() drifts to 01:00 after a skipped midnight; C16)", "6249586 (C12 week configuration read twice)", "1273e62 (C16 first_of/last_of depend on calendar.setfirstweekday())", "9fab684 (C02 mock local zone read twice)", "fc92ad3 (C06 precise_diff full-month shortcut, Python + Rust)"]
 
 
 def main():
